@@ -72,6 +72,12 @@ Qed.
 Lemma bdecode_ok bs v r k : bdecode bs = BOk v r k -> len r + k + 1 <= len bs.
 Proof. apply bparse_ok. Qed.
 
+Lemma bdecode_lim_ok bs v r k : bdecode_lim bs = BOk v r k -> bdecode bs = BOk v r k /\ vdepth v <= max_bencode_depth.
+Proof.
+  unfold bdecode_lim. destruct (bdecode bs) as [v' r' k'|e k']; [|discriminate].
+  destruct (max_bencode_depth <? vdepth v') eqn:E; [discriminate|]. intros [= <- <- <-]. split; [reflexivity|lia].
+Qed.
+
 (* ---- fuel is never exhausted by bdecode ---- *)
 
 Definition no_fuel_err {A} (x : bres A) : Prop := forall k, x <> BErr BFuel k.
